@@ -828,6 +828,12 @@ func (in *Interp) reportViolation(kind, id, msg string, m *Model) {
 				te.Val = m.Eval(e.Term)
 			}
 		}
+		if e.KeyTerms != nil && m != nil {
+			te.Key = make([]int, len(e.KeyTerms))
+			for i, kt := range e.KeyTerms {
+				te.Key[i] = int(m.Eval(kt))
+			}
+		}
 		v.Tape = append(v.Tape, te)
 	}
 	for _, ev := range w.events[:w.pos] {
